@@ -202,7 +202,7 @@ _Q_FIRST = ["add_node", "delete_node"]
 _T_FIRST = ["add_link", "unset_node_property", "update_node_property", "update_nodes_property", "unset_link_property", "delete_graph"]
 for _o1 in _Q_FIRST + _T_FIRST:
     for _o2 in OPS:
-        add("step2/%s+%s" % (_o1, _o2), _mk([_o1, _o2]), timeout=900, tiers=("quick", "thorough") if _o1 in _Q_FIRST else ("thorough",),
+        add("step2/%s+%s" % (_o1, _o2), _mk([_o1, _o2]), timeout=900 if _o1 in _Q_FIRST else 2400, tiers=("quick", "thorough") if _o1 in _Q_FIRST else ("thorough",),
             encodes=ENC, bounds="as step1, two operations (%s then %s) with independent symbolic arguments" % (_o1, _o2))
 
 
